@@ -3,10 +3,15 @@ use crate::ctx::Opts;
 
 pub mod common;
 pub mod c01;
+pub mod c04;
+pub mod c11;
+pub mod objops;
 
 pub fn dispatch(cmd: &str, o: &Opts) -> i32 {
     match cmd {
         "c01" => c01::run(o),
+        "c04" => c04::run(o),
+        "c11" => c11::run(o),
         "selfcheck" => match common::selfcheck(o) {
             Ok(n) => {
                 println!("selfcheck ok: {} reference vectors reproduced by oracle O1", n);
